@@ -595,3 +595,140 @@ macro_rules! skip_len_prefixed {
 skip_len_prefixed!(c07_skip_string_value, ValueKind::String);
 // obligation: C07.skip_bytes1_value | harness: c07_skip_bytes1_value | kind: bounded | bound: input 8 bytes (length prefix of every varint width) | tier: quick
 skip_len_prefixed!(c07_skip_bytes1_value, ValueKind::Bytes1);
+
+// ------------------------------------------------------------------------------------------------------------
+// Strings. Decoding goes through Buf::copy_to_bytes (a BytesMut inside); with a CONCRETE length this is within reach
+// (57 s), with a symbolic length it is not (measured). One harness per length, contents symbolic.
+// serialize direction: kind, length as a one-byte u32 varint, the bytes
+macro_rules! string_serialize {
+    ($name:ident, $len:expr) => {
+        #[kani::proof]
+        #[kani::stub(bytes::BytesMut::reserve_inner, no_reserve_inner)]
+        #[kani::unwind(10)]
+        fn $name() {
+            let raw: [u8; $len] = kani::any();
+            let mut i = 0;
+            while i < $len {
+                kani::assume(raw[i] < 128); // ASCII, hence valid UTF-8 (type invariant of &str)
+                i += 1;
+            }
+            // SAFETY: ASCII bytes are valid UTF-8
+            let st = unsafe { core::str::from_utf8_unchecked(&raw) };
+            let mut buf = BytesMut::with_capacity(96);
+            match Serializer::new(&mut buf, 0) {
+                Ok(s) => {
+                    assert!(s.serialize_string(st).is_ok());
+                }
+                Err(_) => {
+                    assert!(false);
+                }
+            }
+            assert!(buf.len() == 2 + $len);
+            assert!(buf[0] == ValueKind::String as u8 && buf[1] == $len as u8);
+            let mut j = 0;
+            while j < $len {
+                assert!(buf[2 + j] == raw[j]);
+                j += 1;
+            }
+        }
+    };
+}
+
+// obligation: C01.string_serialize_len0 | harness: c01_string_serialize_len0 | kind: bounded | bound: empty string | tier: quick
+string_serialize!(c01_string_serialize_len0, 0);
+// obligation: C01.string_serialize_len3 | harness: c01_string_serialize_len3 | kind: bounded | bound: ASCII string of 3 bytes (contents symbolic) | tier: quick
+string_serialize!(c01_string_serialize_len3, 3);
+
+// decode direction: [String, 2, a, b] with a, b ASCII decodes to exactly those two bytes and consumes everything
+// obligation: C01.string_decode_len2 | harness: c01_string_decode_len2 | kind: bounded | bound: ASCII string of 2 bytes (contents symbolic) | tier: quick
+#[kani::proof]
+#[kani::unwind(6)]
+fn c01_string_decode_len2() {
+    let (a, b): (u8, u8) = (kani::any(), kani::any());
+    kani::assume(a < 128 && b < 128);
+    let data = [ValueKind::String as u8, 2, a, b];
+    let mut s: &[u8] = &data;
+    match Deserializer::new(&mut s, 0) {
+        Ok(d) => match d.deserialize_string() {
+            Ok(st) => {
+                let bs = st.as_bytes();
+                assert!(bs.len() == 2 && bs[0] == a && bs[1] == b);
+            }
+            Err(_) => {
+                assert!(false);
+            }
+        },
+        Err(_) => {
+            assert!(false);
+        }
+    }
+    assert!(s.is_empty());
+}
+
+// C07: arbitrary bytes behind a String kind byte and a concrete claimed length: skip ignores the content, decode
+// additionally validates UTF-8 (the exception the property allows); when decode succeeds both consume the same bytes
+// obligation: C07.string_decode_vs_skip_len2 | harness: c07_string_decode_vs_skip_len2 | kind: bounded | bound: claimed length 2, contents all byte values | tier: quick
+#[kani::proof]
+#[kani::unwind(6)]
+fn c07_string_decode_vs_skip_len2() {
+    let (a, b): (u8, u8) = (kani::any(), kani::any());
+    let data = [ValueKind::String as u8, 2, a, b];
+    let mut s1: &[u8] = &data;
+    let mut s2: &[u8] = &data;
+    let ok1 = match Deserializer::new(&mut s1, 0) {
+        Ok(d) => d.deserialize_string().is_ok(),
+        Err(_) => false,
+    };
+    let ok2 = match Deserializer::new(&mut s2, 0) {
+        Ok(d) => d.skip().is_ok(),
+        Err(_) => false,
+    };
+    assert!(ok2);
+    assert!(s2.is_empty());
+    if ok1 {
+        assert!(s1.is_empty());
+    }
+    // two ASCII bytes are valid UTF-8; a lone continuation byte is not
+    if a < 128 && b < 128 {
+        assert!(ok1);
+    }
+    if a >= 0x80 && a < 0xc0 {
+        assert!(!ok1);
+    }
+    kani::cover!(ok1);
+    kani::cover!(!ok1);
+}
+
+// a claimed length larger than what is there is rejected by decode and skip alike (length is checked before copying)
+macro_rules! string_too_long {
+    ($name:ident, [$($byte:expr),*]) => {
+        #[kani::proof]
+        #[kani::unwind(8)]
+        fn $name() {
+            let data = [$($byte),*];
+            let mut s1: &[u8] = &data;
+            let mut s2: &[u8] = &data;
+            let r1 = match Deserializer::new(&mut s1, 0) {
+                Ok(d) => d.deserialize_string(),
+                Err(_) => {
+                    assert!(false);
+                    return;
+                }
+            };
+            assert!(matches!(r1, Err(DeserializeError::UnexpectedEoi)));
+            let r2 = match Deserializer::new(&mut s2, 0) {
+                Ok(d) => d.skip(),
+                Err(_) => {
+                    assert!(false);
+                    return;
+                }
+            };
+            assert!(matches!(r2, Err(DeserializeError::UnexpectedEoi)));
+        }
+    };
+}
+
+// obligation: C07.string_too_long_3 | harness: c07_string_too_long_3 | kind: bounded | bound: claimed length 3, 2 bytes available | tier: quick
+string_too_long!(c07_string_too_long_3, [ValueKind::String as u8, 3, 65, 66]);
+// obligation: C07.string_too_long_max | harness: c07_string_too_long_max | kind: bounded | bound: claimed length 2^32-1, 2 bytes available | tier: quick
+string_too_long!(c07_string_too_long_max, [ValueKind::String as u8, 255, 255, 255, 255, 255, 65, 66]);
